@@ -91,6 +91,17 @@ func (e *Enc) isRepoFn(fn *ssa.Function) bool {
 }
 
 func (fr *Frame) staticCall(fn *ssa.Function, args []*Val, bind []*Val, st *State, pos token.Pos) *Val {
+	pcBefore := st.pc
+	res := fr.staticCall1(fn, args, bind, st, pos)
+	if res != nil {
+		root := fr.root()
+		k := fnKey(fr.e.g, fn)
+		root.callResults[k] = append(root.callResults[k], callRes{pcBefore, res})
+	}
+	return res
+}
+
+func (fr *Frame) staticCall1(fn *ssa.Function, args []*Val, bind []*Val, st *State, pos token.Pos) *Val {
 	e := fr.e
 	key := fnKey(e.g, fn)
 	sig := fn.Signature
@@ -284,6 +295,12 @@ func (cf *Frame) evalTargets(src string, pre *State) ([]modTarget, error) {
 			}
 		}
 		return nil, fmt.Errorf("unbound:%s", src)
+	}
+	if strings.HasPrefix(src, "arrays:") {
+		// every array with this element type (coarse): arrays:int
+		k := src[7:]
+		es := "Int"
+		return []modTarget{{Comp: "A_" + san(k), Sort: arrSort(es), Kind: "whole"}}, nil
 	}
 	if src == "owner" {
 		return []modTarget{{Comp: "Owner", Sort: "(Array Int Int)", Kind: "whole"}}, nil
@@ -868,9 +885,7 @@ func (fr *Frame) frameCheck(spec *FuncSpec, out *State) {
 			continue
 		}
 		e.declare("r!frame", "Int")
-		if strings.HasPrefix(k, "G_") {
-			cond = sAnd(cond, "(not (and (<= "+nx0+" r!frame) (< r!frame "+nx1+")))")
-		}
+		_, _ = nx0, nx1
 		e.oblige("frame", k, out.pc, sImp(cond, sEq(sSel(fin, "r!frame"), sSel(ent, "r!frame"))), nil, fr.fn.Pos(), "only objects named in modifies (or allocated by the call) may change")
 	}
 }
